@@ -320,6 +320,8 @@ class World:
                 sf.close()
             except Exception:  # noqa
                 pass
+        for p in self.paths:
+            self._reap(p)
         self._wipe()
 
     def in_scope(self, e):
@@ -337,6 +339,20 @@ class World:
         else:
             ok = True
         return ok and (self.lib == "sfile" or self._bare_admissible(e))
+
+    def _reap(self, p):
+        """a constructor that raises after its fopen (mode 'w+' without a dtype) leaves the descriptor open: no handle
+        of ours is open on p at this point, so every descriptor of this process that still points at it is such a
+        leftover - closed here, or a long run exhausts the descriptor table (housekeeping, nothing is judged)"""
+        try:
+            for fd in os.listdir("/proc/self/fd"):
+                try:
+                    if os.readlink("/proc/self/fd/" + fd) == self.paths[p]:
+                        os.close(int(fd))
+                except OSError:
+                    pass
+        except OSError:
+            pass
 
     # -- bare recfile: no header, no stored dtype - the calls a caller who remembers the dtype can make -----------
     def _bare_admissible(self, e):
@@ -581,6 +597,10 @@ class World:
         look = observe or last or res["err"] != "none"
         out["obs"] = [self.observe(p) if look else dict(UNOBSERVED) for p in sorted(self.paths)]
         out["rawsame"] = [self.raw(p) == before[p] for p in sorted(self.paths)]
+        if res["err"] != "none" or any(o["st"] == "unreadable" for o in out["obs"]):
+            for p in self.paths:
+                if p not in self.hpath.values():
+                    self._reap(p)
         return out
 
     def _hcount(self, sf):
